@@ -55,6 +55,25 @@ fn trait_case(args: &Args, idx: u64, rng: &mut Rng, rep: &mut Report) {
     macro_rules! fail {
         ($class:expr, $($arg:tt)*) => {{ if failed.is_none() { failed = Some(($class.to_string(), format!($($arg)*))); } }};
     }
+    // A hasher that was re-pointed with the hazmat offset and has absorbed nothing yet: a trait-level
+    // reset must bring it back to the freshly constructed state (offset 0) like the inherent one.
+    if m.bytes.is_empty() && rng.chance(1, 6) {
+        use blake3::hazmat::HasherExt;
+        let c = 1 + (rng.u64() >> rng.below(60)) % (1 << 40);
+        let r = guarded(|| {
+            h.set_input_offset(c.wrapping_mul(1024));
+            if rng.chance(1, 2) {
+                Reset::reset(&mut h);
+            } else {
+                Digest::reset(&mut h);
+            }
+        });
+        ops.push(format!("hazmat set_input_offset({}*1024); Reset::reset", c));
+        rep.seen("trait_methods_called", "Reset::reset after hazmat offset");
+        if let Err(p) = r {
+            fail!("traits/panic", "set_input_offset + trait reset panicked: {}", p);
+        }
+    }
     let nops = 2 + rng.usize_below(12);
     for _ in 0..nops {
         if failed.is_some() {
